@@ -116,9 +116,8 @@ def check(model: Model, run: Run) -> None:
                        "L4 messages appended in decode order and processed by a loop that does not touch the list, L5 values handed out are copies. "
                        "The induction itself and equality of the resulting state when a batch contains an error are on paper, not decided")
     common_coverage(ex, run)
-    fi = model.find_method(BASE, "receive")
-    if fi is None:
-        raise AnalysisError("LDAPSession.receive not found")
+    from ..readerrules import receive_anchor
+    fi = receive_anchor(model)
     lemma_no_consume_on_failure(model, run, "C02")
     lemma_no_silent_clamp(model, run, mr)
     lemma_reader_truth(model, run)
